@@ -34,18 +34,22 @@ RULE = ("API-call sequences over add_assertion(10 formulas: Bool/BV2/Int/one 0-a
         "the stated length (every prefix is checked while the maximal sequence runs) plus sampled long ones; a case is "
         "non-trivial when at least one declaration is sent and the stack is moved or reset")
 ASSUMPTIONS = [
-    "the solver process answers every command with exactly one reply line (refsolver.py does; StrictSolver.respond)",
+    "the solver process answers every command with exactly one reply line (refsolver.py does; StrictSolver.respond), and "
+    "a reply is consumed as a whole (the model's recv); pySMT's parser stops in the middle of a reply only when it "
+    "raises on it, which happens for the known findings F36/F37 -- a case ends at the first such exception",
     "formulas are abstracted to (id, free symbols, custom sort declarations) of formula.simplify(); simplify, "
     "get_free_variables, get_types and the SMT-LIB printer are the subject of C01/C12/C07",
-    "one symbol per name (FormulaManager, C04): theorem hypothesis NamesUnique",
+    "one symbol per name, one sort declaration per name (FormulaManager/TypeManager, C04): theorem hypothesis Universe",
     "symbols are constants (no function-typed symbols: get_model's is_term() filter is not modelled)",
-    "incremental mode, default options, no named assertions, no solve(assumptions)",
+    "incremental mode, default options, no named assertions, no solve(assumptions), no print_model",
+    "API preconditions (theorem hypothesis LegalRun, generator rule): pop(n) within the levels the user pushed; "
+    "get_value/get_model only directly after a sat verdict",
     "Int symbols range over [-3,3], custom sorts have 3 elements in refsolver and in the brute-force truth",
 ]
 
 INT_RANGE = 3
 USIZE = 3
-CASE_TIMEOUT = 10
+CASE_TIMEOUT = 30
 
 # --------------------------------------------------------------------------------------------- pool
 _POOL = None
@@ -103,7 +107,6 @@ class Pool(object):
         # terms for get_value: id -> FNode
         self.terms = {"a": a, "b": b, "c": c, "v": v, "i": i, "x": x,
                       "Tv": m.BVAdd(v, m.BV(1, 2)), "Ti": m.Plus(i, m.Int(1))}
-        self.term_eval = {"Tv": lambda e: (e["v"] + 1) % 4, "Ti": lambda e: e["i"] + 1}
         self._abs = {}
         self._text = {}
         self.by_text = {}
@@ -163,26 +166,41 @@ _TRUTH = {}
 
 
 def models_of(fids):
-    """all assignments (over the symbols the predicates read) satisfying the predicates of `fids`"""
+    """is the conjunction of the predicates of `fids` satisfiable over the finite domains?  (independent groups of
+    formulas -- no shared symbol -- are decided separately)"""
     P = pool()
     key = tuple(sorted(set(fids)))
-    if key not in _TRUTH:
-        names = sorted(set(n for fid in key for n in P.formulas[fid.lstrip("N")][2]))
-        res = []
-        for vals in itertools.product(*[P.symbols[n]["dom"] for n in names]):
-            e = dict(zip(names, vals))
-            ok = True
-            for fid in key:
-                neg = fid.startswith("N")
-                val = bool(P.formulas[fid.lstrip("N")][1](e))
-                if val == neg:
-                    ok = False
+    if key in _TRUTH:
+        return _TRUTH[key]
+    groups = []         # [set of names, [fids]]
+    for fid in key:
+        ns = set(P.formulas[fid.lstrip("N")][2])
+        merged = [ns, [fid]]
+        rest = []
+        for g in groups:
+            if g[0] & merged[0]:
+                merged[0] |= g[0]
+                merged[1] += g[1]
+            else:
+                rest.append(g)
+        groups = rest + [merged]
+    res = True
+    for ns, fs in groups:
+        gkey = tuple(sorted(fs))
+        if gkey not in _TRUTH:
+            names = sorted(ns)
+            found = False
+            for vals in itertools.product(*[P.symbols[n]["dom"] for n in names]):
+                e = dict(zip(names, vals))
+                if all(bool(P.formulas[f.lstrip("N")][1](e)) != f.startswith("N") for f in fs):
+                    found = True
                     break
-            if ok:
-                res.append(e)
-                break       # one witness is enough
-        _TRUTH[key] = bool(res)
-    return _TRUTH[key]
+            _TRUTH[gkey] = found
+        if not _TRUTH[gkey]:
+            res = False
+            break
+    _TRUTH[key] = res
+    return res
 
 
 # ------------------------------------------------------------------------------ running the real wrapper
@@ -203,12 +221,6 @@ def const_text(node):
     except Exception:       # noqa
         pass
     return "?" + str(node)
-
-
-def const_py(node):
-    if node.is_bool_constant() or node.is_int_constant() or node.is_bv_constant():
-        return node.constant_value()
-    return None
 
 
 _TMP = None
@@ -725,9 +737,7 @@ def analyse(rec):
                         out.append((sig_({"oracle": "verdict-relay", "call": OPNAME[kind]}),
                                     "call %d (%s) returned %s but the solver said %s" % (oi, OPNAME[kind], res, told[-1])))
             elif res == "exc:SolverReturnedUnknownResultError" and unknown:
-                if kind != "solve":
-                    history = "is_sat-raised-unknown"
-                continue
+                continue        # the documented outcome of an undecided check
         if kind in ("getv", "model") and not res.startswith("exc:") and gi not in flagged:
             # values the process reported during this call
             reported = {}
@@ -817,10 +827,10 @@ def random_stream(rng):
     names = ["a", "b", "v", "x", "p", "r"]
     sorts = [("U", 0), ("Pair", 2)]
     cmds = []
-    n = rng.randint(3, 14)
+    n = rng.randint(3, 18)
     if rng.random() < 0.9:
         cmds.append(("(set-option :produce-models true)", "so::produce-models:true"))
-    if rng.random() < 0.93:
+    if rng.random() < 0.97:
         cmds.append(("(set-logic QF_UF)", "sl:QF_UF"))
 
     def symtok(nm):
@@ -840,30 +850,62 @@ def random_stream(rng):
         return txt, "e/%s/%s" % (",".join(symtok(nm) for nm in ns),
                                  ",".join("%s:%d" % (u, P.sort_arity[u]) for u in used))
 
+    # shadow of the scope, used to aim at legal commands most of the time
+    levels = [[set(), set()]]       # [symbols, sorts] per level
+
+    def in_scope(i, x):
+        return any(x in l[i] for l in levels)
+
     for _ in range(n):
         k = rng.random()
+        aim = rng.random() < 0.94
         if k < 0.25:
-            nm = rng.choice(names)
+            cand = [nm for nm in names if not in_scope(0, nm) and all(in_scope(1, u) for u in P.symbols[nm]["uses"])]
+            if aim and not cand:
+                continue
+            nm = rng.choice(cand) if aim else rng.choice(names)
             cmds.append(("(declare-fun %s () %s)" % (nm, P.symbols[nm]["sort"]), "df:" + symtok(nm)))
+            if not in_scope(0, nm) and all(in_scope(1, u) for u in P.symbols[nm]["uses"]):
+                levels[-1][0].add(nm)
         elif k < 0.37:
-            s, ar = rng.choice(sorts)
+            cand = [x for x in sorts if not in_scope(1, x[0])]
+            if aim and not cand:
+                continue
+            s, ar = rng.choice(cand) if aim else rng.choice(sorts)
             cmds.append(("(declare-sort %s %d)" % (s, ar), "ds:%s:%d" % (s, ar)))
+            if not in_scope(1, s):
+                levels[-1][1].add(s)
         elif k < 0.57:
-            ns = rng.sample(names, rng.randint(1, 3))
+            cand = [nm for nm in names if in_scope(0, nm)]
+            if aim and not cand:
+                continue
+            if aim:
+                ns = rng.sample(cand, rng.randint(1, min(3, len(cand))))
+            else:
+                ns = rng.sample(names, rng.randint(1, 3))
             t, tok = expr(ns)
             cmds.append(("(assert %s)" % t, "as:" + tok))
         elif k < 0.67:
             m = rng.randint(0, 2)
             cmds.append(("(push %d)" % m, "pu:%d" % m))
+            levels.extend([set(), set()] for _ in range(m))
         elif k < 0.77:
-            m = rng.randint(0, 3)
+            m = rng.randint(0, len(levels) - 1) if aim else rng.randint(0, 3)
             cmds.append(("(pop %d)" % m, "po:%d" % m))
+            if m < len(levels) and m:
+                del levels[-m:]
         elif k < 0.82:
             cmds.append(("(reset-assertions)", "ra"))
+            levels = [[set(), set()]]
         elif k < 0.92:
             cmds.append(("(check-sat)", "cs"))
         elif k < 0.99:
-            ns = rng.sample(names, 1)
+            cand = [nm for nm in names if in_scope(0, nm)]
+            if aim and not cand:
+                continue
+            ns = [rng.choice(cand)] if aim else rng.sample(names, 1)
+            if aim and cmds and cmds[-1][1] != "cs":
+                cmds.append(("(check-sat)", "cs"))
             t, tok = expr(ns)
             cmds.append(("(get-value (%s))" % t, "gv:" + tok))
         else:
@@ -1024,6 +1066,39 @@ def _work(ops):
                 "crash": "%r\n%s" % (e, traceback.format_exc()[-1500:])}
 
 
+_SHRUNK = {}
+_KNOWN = None
+
+
+def _known():
+    global _KNOWN
+    if _KNOWN is None:
+        _KNOWN = [e for e in common.load_known() if e.get("property") == "C17"]
+    return _KNOWN
+
+
+def shrink(ops, sig, max_runs=60):
+    """delete calls one at a time while the same defect (same signature) is still observed"""
+    cur = [list(o) for o in ops]
+    runs = 0
+    changed = True
+    while changed and runs < max_runs:
+        changed = False
+        for i in range(len(cur) - 1, -1, -1):
+            cand = cur[:i] + cur[i + 1:]
+            if not cand:
+                continue
+            r = _work(cand)
+            runs += 1
+            if not r["crash"] and any(s == sig for s, _ in r["viol"]):
+                cur = cand
+                changed = True
+                break
+            if runs >= max_runs:
+                break
+    return cur
+
+
 def process_results(ctx, results):
     """S reports, then one batched Lean run for K"""
     reqs, recs = [], []
@@ -1043,6 +1118,17 @@ def process_results(ctx, results):
         if len(ctx.samples) < 5 and r["key"]:
             ctx.sample({"ops": rec["ops"], "outs": rec["outs"], "stream": [c for c, _ in rec["log"]]})
         for sig, what in r["viol"]:
+            key = json.dumps(sig, sort_keys=True)
+            if key not in _SHRUNK and common.match_known(sig, _known()) is None and len(_SHRUNK) < 5:
+                _SHRUNK[key] = True
+                small = shrink(rec["ops"], sig)
+                if len(small) < len(rec["ops"]):
+                    r2 = _work(small)
+                    for sig2, what2 in r2["viol"]:
+                        if sig2 == sig:
+                            ctx.report_s(sig, what2 + " [shrunk from %d calls]" % len(rec["ops"]),
+                                         {"ops": r2["rec"]["ops"], "outs": r2["rec"]["outs"], "log": r2["rec"]["log"]})
+                            break
             ctx.report_s(sig, what, {"ops": rec["ops"], "outs": rec["outs"], "log": rec["log"]})
         reqs.append(r["req"])
         recs.append(rec)
@@ -1111,11 +1197,11 @@ def _run(ctx):
     # 1. witnesses
     run_cases(ctx, SCENARIOS, t_end)
     # 2. exhaustive enumeration (every prefix of a maximal sequence is checked while it runs)
-    plan = [(True, 3), (False, 4)] if quick else [(True, 4), (False, 6)]
+    plan = [(True, 3), (False, 4)] if quick else [(True, 4), (False, 5), (False, 6)]
     exhaustive = []
     for full, length in plan:
         cases = enumerate_sequences(alphabet(full), length)
-        budget = (t_end - time.time()) * (0.55 if (full, length) == plan[0] else 0.75)
+        budget = (t_end - time.time()) * ((0.55 if (full, length) == plan[0] else 0.75) if quick else 0.45)
         n = run_cases(ctx, cases, time.time() + max(budget, 5))
         exhaustive.append({"alphabet": len(alphabet(full)), "length": length, "sequences": len(cases), "run": n,
                            "complete": n == len(cases)})
